@@ -193,6 +193,7 @@ func (api *PublicFilterAPI) NewPendingTransactionFilter() rpc.ID {
 				verifhook.At("consumer", "err", pendingTxSub.ID())
 				delete(api.filters, pendingTxSub.ID())
 				api.filtersMu.Unlock()
+				return
 			}
 		}
 	}(pendingTxSub.eventCh, pendingTxSub.Err())
